@@ -166,23 +166,32 @@ inductive Mid where
   | one (s : Src)               -- `*p = _value`
   | rep (n : Nat) (s : Src)     -- `std::uninitialized_fill(p, p + n, _value)`
   | list (xs : List Int)        -- `std::uninitialized_copy(_left, _right, p)`
+  | self (a b : Nat)            -- the same with `[_left, _right)` = `[begin() + a, begin() + b)` of the vector itself
 
 def Mid.count : Mid → Nat
   | .one _ => 1
   | .rep n _ => n
   | .list xs => xs.length
+  | .self a b => b - a
 
 /-- `T const value(_value);` — read the referenced element now -/
 def Mid.resolve (h : Heap) (v : RV) : Mid → M Mid
   | .one s => do let x ← readSrc h v s; pure (.one (.val x))
   | .rep n s => do let x ← readSrc h v s; pure (.rep n (.val x))
   | .list xs => pure (.list xs)
+  | .self a b => pure (.self a b)     -- the range overload copies nothing beforehand
 
 /-- writes the middle part at cell `d` of block `db`; a reference argument is read from the heap as it is now -/
 def writeMid (h : Heap) (v : RV) (db d : Nat) : Mid → M Heap
   | .one s => do let x ← readSrc h v s; h.write db d x
   | .rep n s => do let x ← readSrc h v s; fill h db d x n
   | .list xs => copyIn h db d xs
+  | .self a b => do
+    -- `_left`, `_right` still point into the vector's (old) block, which is read cell by cell as it is now;
+    -- source and destination of `std::uninitialized_copy` must not overlap
+    let vb ← v.ptr
+    if vb = db ∧ ¬ (b ≤ d ∨ d + (b - a) ≤ a) then .error .oob else
+    copyFwd h vb a db d (b - a)
 
 def insertGen (g : Nat → Nat → Nat) (copyFirst : Bool) (h : Heap) (v : RV) (pos : Nat) (m : Mid) : M (Heap × RV) :=
   if pos > v.last then .error .oob else
@@ -226,6 +235,14 @@ def insertRange (g : Nat → Nat → Nat) (h : Heap) (v : RV) (pos : Nat) (xs : 
   if xs.isEmpty then pure (h, v)
   else if fwd then insertGen g true h v pos (.list xs)
   else insertInput g h v pos xs
+
+/-- `insert(position, begin() + a, begin() + b)`: a forward range of the vector itself (std::vector forbids this; here the
+reallocating branch reads the old block before it is freed, the in-place branch reads the block *after* the shift) -/
+def insertSelf (g : Nat → Nat → Nat) (h : Heap) (v : RV) (pos a b : Nat) : M (Heap × RV) :=
+  if ¬ (a ≤ b ∧ b ≤ v.last) then .error .oob else
+  if pos > v.last then .error .oob else
+  if a = b then pure (h, v)
+  else insertGen g true h v pos (.self a b)
 
 def erase1 (h : Heap) (v : RV) (pos : Nat) : M (Heap × RV × Nat) :=
   if pos ≥ v.last then .error .oob else do
@@ -302,6 +319,7 @@ inductive VOp where
   | erase1 (pos : Nat) | eraseR (l r : Nat)
   | resize (n : Nat) (s : Src) | reserve (n : Nat) | shrink | clear
   | assign (a : Acc) (x : Int)            -- `v[i] = x`, `v.front() = x`, `v.back() = x`
+  | insertSelf (pos a b : Nat)            -- `v.insert(v.begin() + pos, v.begin() + a, v.begin() + b)`
 
 def vstep (g : Nat → Nat → Nat) (h : Heap) (v : RV) : VOp → M (Heap × RV × Option Nat)
   | .pushBack s => do let r ← pushBack g h v s; pure (r.1, r.2, none)
@@ -316,6 +334,7 @@ def vstep (g : Nat → Nat → Nat) (h : Heap) (v : RV) : VOp → M (Heap × RV 
   | .shrink => do let r ← shrinkToFit h v; pure (r.1, r.2, none)
   | .clear => do let r ← clear h v; pure (r.1, r.2, none)
   | .assign a x => do let h1 ← writeRef h v a x; pure (h1, v, none)
+  | .insertSelf pos a b => do let r ← insertSelf g h v pos a b; pure (r.1, r.2, none)
 
 /-- constructors (all start from `impl_{alloc}` = null pointers) -/
 inductive Ctor where
